@@ -147,8 +147,9 @@ def key_pool(rng, cfg):
         pool.append(k)
     var(m="POST"); var(u="api.com/v1/item"); var(id="8"); var(org="acm"); var(z="1")
     var(id="")                       # a parameter without a value
+    var(id="7.org:acme", org="")     # a value that spells out the next selected parameter
     if cfg["typ"] in ("rel", "abs"):
-        pool = pool[:3] + [pool[5]]
+        pool = pool[:3] + [pool[5]]       # only method and URL are in the throttling remedy's key
     return pool
 
 
@@ -219,11 +220,18 @@ def rand_history(rng, cfg, n, conc):
 
 # ----------------------------------------------------------------------------- execution and judgement
 def execute(ctx, binary, scripts, tag):
+    """one executor process per script (configuration), several at a time: the background goroutines an instance of
+    the code under test leaves behind stay within their process"""
     d = ctx.sub("run-" + tag)
-    sp = os.path.join(d, "scripts.json")
-    json.dump(scripts, open(sp, "w"))
-    ctx.run_harness(binary, ["run", sp, d], timeout=900)
-    return [read_ndjson(os.path.join(d, "trace-%03d.ndjson" % i)) for i in range(len(scripts))]
+    def one(it):
+        i, sc = it
+        sd = os.path.join(d, "s%03d" % i)
+        os.makedirs(sd, exist_ok=True)
+        sp = os.path.join(sd, "scripts.json")
+        json.dump([sc], open(sp, "w"))
+        ctx.run_harness(binary, ["run", sp, sd], timeout=900, cwd=sd)
+        return read_ndjson(os.path.join(sd, "trace-000.ndjson"))
+    return parallel(one, list(enumerate(scripts)), n=6)
 
 
 def ops_of(h):
@@ -323,14 +331,27 @@ def judge(ctx, binary, scripts, traces, tag, seen, flags):
     # conformance of the implementation-shaped model (never a verdict)
     def drift(it):
         i, ev = it
+        rej = None
         for kf, trunc in flags:
             e2 = [dict(ev[0], kf=kf, trunc=trunc, persec=PERSEC)] + ev[1:]
-            acc, rej, _ = validate_history_trace(ctx, SPEC, "CacheITrace", e2, tag="%s-i%d-%d%d" % (tag, i, kf, trunc), max_rounds=1, timeout=300, deque=True)
+            try:
+                acc, rej, _ = validate_history_trace(ctx, SPEC, "CacheITrace", e2, tag="%s-i%d-%d%d" % (tag, i, kf, trunc), max_rounds=1, timeout=400, deque=True)
+            except Broken:               # the search ran out of time or memory: no statement about this recording
+                return "inconclusive"
             if not rej:
                 return None
         return rej[0]
-    drifts = parallel(drift, list(enumerate(traces)), n=6)
-    ctx.log("%s: validated against CacheI" % tag)
+    sel = list(enumerate(traces))
+    if ctx.thorough and tag == "rand":
+        sel = sel[::2]
+    drifts = parallel(drift, sel, n=5)
+    inconclusive = sum(1 for d in drifts if d == "inconclusive")
+    ctx.log("%s: %d traces validated against CacheI (%d inconclusive)" % (tag, len(sel), inconclusive))
+    if inconclusive == len(sel):
+        raise Broken("conformance of CacheI to the code could not be established for any %s recording" % tag)
+    if inconclusive:
+        ctx.notes.append("%s: %d of %d CacheI validations ran out of time (no statement)" % (tag, inconclusive, len(sel)))
+    drifts = [d for d in drifts if d != "inconclusive"]
     for d in drifts:
         if d is not None:
             ctx.cov["model_drift"] = True
